@@ -86,8 +86,8 @@ impl Parseable for Permission {
     fn parse(input: &mut &str) -> PResult<Permission> {
         alt((
             take_while(3.., |c| "01234567".contains(c))
-                .map(|oct| u32::from_str_radix(oct, 8).unwrap())
-                .map(|bits| Permission(Mode::from_bits(bits).unwrap())),
+                .try_map(|oct| u32::from_str_radix(oct, 8))
+                .verify_map(|bits| Mode::from_bits(bits).map(Permission)),
             separated(1.., PartialPermission::parse, ",")
                 .map(|v: Vec<PartialPermission>| {
                     v.iter()
